@@ -34,6 +34,13 @@ pub fn get_rewards_share(deps: Deps, address: Addr) -> Result<RewardsShareRespon
         });
     }
 
+    // the earliest weight recorded for the address might only apply from the next epoch on, i.e.
+    // when the address got its first weight during the current epoch. In that case the address
+    // has no weight in the current epoch, which is what claims use.
+    if last_epoch_user_weight_update > current_epoch {
+        last_user_weight_seen = Uint128::zero();
+    }
+
     let start_epoch = last_epoch_user_weight_update;
     for epoch_id in start_epoch..=current_epoch {
         let user_weight_at_epoch =
